@@ -7,14 +7,19 @@ import unitcorr
 
 ID = "C09"
 LEVEL = "proof"
-MODEL_TARGETS = ["theories/Poly.vo"]
+MODEL_TARGETS = ["theories/Poly.vo", "theories/RefModel.vo"]
 TRANSLATORS = ["semiring"]
 LEVEL_TEXT = ("Machine-checked theorems about an executable, code-shaped Coq model of Polynomial.add/times/Monomial.prod: sum law for ALL "
               "monomial lists, product law (zero when an operand has no term) for all lists with satisfiable monomials, termination of both "
-              "loops, normal form of the results; unbounded in number of monomials, deltas and sites. The model is tied to the code on every "
+              "loops, normal form of the results; unbounded in number of monomials, deltas and sites. 'Neither operation changes its operands' is "
+              "proved on the reference-level model (RefModel.v: heap of monomial objects, in-place scalar writes, argument monomials shared by "
+              "reference): add writes to NO pre-existing monomial for arbitrary, even aliased or unsorted operands (the EQUAL branch of its main "
+              "loop is dead; the merge's write only hits copies made by the call), times likewise. The model is tied to the code on every "
               "run by structural comparison of result lists on generated reachable and malformed operands.")
-LEVEL_NOTE = ("Trusted: Coq kernel; the correspondence harness (generators, Coq literal printer); 'operands unchanged' is a Python-side "
-              "before/after comparison (object mutation is outside the functional model). No axioms.")
+LEVEL_NOTE = ("Trusted: Coq kernel; the correspondence harness (generators, Coq literal printer). 'Operands unchanged' is checked on the real "
+              "objects by a before/after snapshot (id, scalar, deltas) on every case, aliased calls x+x / x*x included; the reference-level model "
+              "the theorems are about is compared with the real object graph (provenance of every result monomial, state of every pre-existing "
+              "monomial) by the C13 check's `refmodel ops` stream. No axioms.")
 TECHNIQUE = "Coq proof (induction over the merge loops with a value invariant) + differential correspondence via vm_compute"
 EXPLANATION = "see LEVEL_TEXT; theorems in coq/props/C09.v, model coq/theories/Poly.v"
 ASSUMPTIONS = ["choice vectors are at least as long as the largest delta index + 1 (shorter tuples raise IndexError in Python)",
@@ -52,6 +57,8 @@ def oracle(case, failing):
     """semantic checks on the real result (independent of the Coq model)."""
     op, pd, qd, res = case["op"], case["p"], case["q"], case["res"]
     inp = {"op": op, "p": pd, "q": qd}
+    if case.get("chain"):
+        inp["chain"] = case["chain"]
     if case["exc"]:
         failing.append({"what": f"raise: Polynomial.{op} raised {case['exc']}", "sig": ["C09", "raise", op], "input": inp,
                         "expected": "a polynomial", "observed": case["exc"]})
@@ -91,6 +98,56 @@ def oracle(case, failing):
             return
 
 
+def run_chain(steps):
+    """A *live* history on real objects: acc = leaf0; acc = acc op leaf_i ...; every step is one case whose operand p is the very
+    object the previous step returned (so anything an operation leaves behind on an object -- caches, shared monomials -- is carried along).
+    steps: [(op, index, (a, b, c))] with op in add/times/add_self/times_self (the *_self forms call x.add(x) / x.times(x)).
+    Returns the list of case dicts (same format as one_case) with the chain prefix attached."""
+    from pymwp import Polynomial
+    out = []
+    acc = None
+    for n, (op, idx, sc) in enumerate(steps):
+        leaf = Polynomial.from_scalars(idx, *sc)
+        if acc is None:
+            acc = leaf
+            continue
+        p = acc
+        q = p if op.endswith("_self") else leaf
+        bop = op.split("_")[0]
+        pd0, qd0 = PL.to_data(p), PL.to_data(q)
+        sp, sq = snapshot(p), snapshot(q)
+        try:
+            r = vlib.with_timeout(lambda: (p + q) if bop == "add" else (p * q), 60)
+            res, exc = PL.to_data(r), None
+        except vlib.CaseTimeout:
+            r, res, exc = None, None, ["Timeout", None]
+        except Exception as e:
+            r, res, exc = None, None, vlib.exc_sig(e)
+        unchanged = (snapshot(p) == sp and snapshot(q) == sq)
+        out.append({"op": bop, "p": pd0, "q": qd0, "res": res, "exc": exc, "unchanged": unchanged,
+                    "chain": [[o, i, list(c)] for o, i, c in steps[:n + 1]], "aliased": q is p})
+        if r is None:
+            break
+        acc = r
+    return out
+
+
+def gen_chain(rng, nsites):
+    """mostly products of leaves over distinct indices (monomials with up to nsites deltas), now and then a sum, an aliased call"""
+    order = list(range(nsites))
+    rng.shuffle(order)
+    steps = []
+    size = 1
+    for n, idx in enumerate(order):
+        r = rng.random()
+        op = "times" if (n == 0 or r < 0.8) else "add"
+        steps.append((op, idx, rng.choice(PL.LEAVES[2:] + [PL.LEAVES[2]])))
+        size = size * 3 if op == "times" else size + 3
+        if n and size <= 27 and rng.random() < 0.25:
+            steps.append((rng.choice(["add_self", "times_self"]), idx, PL.LEAVES[0]))
+    return steps
+
+
 def gen_cases(ctx, n_reach, n_mal):
     vlib.import_pymwp()
     rng = ctx.rng
@@ -124,6 +181,13 @@ def run(ctx):
     corpus = [(op, [(s, [tuple(d) for d in ds]) for s, ds in p], [(s, [tuple(d) for d in ds]) for s, ds in q], raw) for op, p, q, raw in corpus]
     raw_cases = corpus + gen_cases(ctx, n_reach, n_mal)
     results = [one_case(*c) for c in raw_cases]
+    # live histories: the operand is the object an earlier operation returned (6 sites: monomials with >= 5 deltas; 729-term products)
+    n_chain_cases = 0
+    chains = [gen_chain(ctx.rng, 6) for _ in range(ctx.n(3, 16))] + [gen_chain(ctx.rng, ctx.rng.choice([3, 4, 5])) for _ in range(ctx.n(12, 100))]
+    for ch in chains:
+        rs = run_chain(ch)
+        n_chain_cases += len(rs)
+        results += rs
     failing, mism = [], []
     for r in results:
         oracle(r, failing)
@@ -156,9 +220,12 @@ def run(ctx):
     sizes = [len(r["p"]) * len(r["q"]) for r in results]
     distinct = len({(r["op"], str(r["p"]), str(r["q"])) for r in results if len(r["p"]) + len(r["q"]) > 2})
     stats = {"evaluations": len(results), "distinct_nontrivial": distinct,
-             "rule": "operands: reachable stream (random +/x trees over the analysis leaf forms, depth<=3, sites<=4, random p/w->i corrections) "
+             "rule": "operands: reachable stream (random +/x trees over the analysis leaf forms, depth<=3, sites<=4, random p/w->i corrections), "
+                     "live chains (the operand IS the object the previous operation returned; products of leaves over up to 6 sites, sums, aliased x+x / x*x) "
                      "and malformed stream (arbitrary scalar/delta lists set directly on the objects); non-trivial = distinct (op,p,q) with more than two monomials in total",
              "samples": [{"op": r["op"], "p": r["p"], "q": r["q"], "result": r["res"]} for r in results[len(corpus):len(corpus) + 3]],
+             "n_live_chains": len(chains), "n_live_chain_cases": n_chain_cases,
+             "n_aliased_calls": sum(1 for r in results if r.get("aliased")),
              "n_reachable": n_reach, "n_malformed": n_mal, "n_corpus": len(corpus), "poly_aux_cases": n_aux, "n_exceptions": n_exc,
              "share_add": round(sum(1 for r in results if r["op"] == "add") / max(1, len(results)), 3),
              "max_operand_product_size": max(sizes) if sizes else 0,
@@ -170,6 +237,12 @@ def replay(ctx, data):
     vlib.import_pymwp()
     inp = data.get("input", data)
     raw = True
+    if inp.get("chain"):
+        rs = run_chain([(o, i, tuple(c)) for o, i, c in inp["chain"]])
+        failing = []
+        if rs:
+            oracle(rs[-1], failing)
+        return failing[0] if failing else None
     r = one_case(inp["op"], [(s, [tuple(d) for d in ds]) for s, ds in inp["p"]], [(s, [tuple(d) for d in ds]) for s, ds in inp["q"]], raw)
     failing = []
     oracle(r, failing)
